@@ -26,6 +26,13 @@ structure DocOk (langs : List String) (r : RepoMeta) (d : Doc) : Prop where
   lang_idem : langs.getD d.lang "" = "" → d.redetect = ""
   syms : d.syms.any (·.isNone) = false
 
+/-- every document of the builder is again copyable (so the written shard can be merged / exploded again) -/
+def OKI (b : Builder) : Prop := ∀ g ∈ b.groups, ∀ d ∈ g.2, DocOk b.langs g.1 d
+
+theorem DocOk_langs_ext (langs suf : List String) (r : RepoMeta) (d : Doc) (h : d.lang < langs.length)
+    (hok : DocOk langs r d) : DocOk (langs ++ suf) r d :=
+  { hok with lang_idem := by rw [getD_append_of_lt langs suf d.lang h]; exact hok.lang_idem }
+
 theorem decode_langs_ext (langs suf : List String) (r : RepoMeta) (d : Doc) (h : d.lang < langs.length) :
     decode (langs ++ suf) r d = decode langs r d := by
   unfold decode; rw [getD_append_of_lt langs suf d.lang h]
@@ -33,7 +40,7 @@ theorem decode_langs_ext (langs suf : List String) (r : RepoMeta) (d : Doc) (h :
 theorem add_spec (langs : List String) (b : Builder) (pre : List (RepoMeta × List Doc)) (r : RepoMeta) (ds : List Doc)
     (hg : b.groups = pre ++ [(r, ds)]) (hbi : BI b) (d : Doc) (hok : DocOk langs r d) :
     ∃ b' ds', b.add (decode langs r d) d.redetect = some b' ∧ BI b' ∧
-      bflat b' = bflat b ++ [(r, decode langs r d)] ∧ b'.groups = pre ++ [(r, ds')] ∧ ds' ≠ [] := by
+      bflat b' = bflat b ++ [(r, decode langs r d)] ∧ b'.groups = pre ++ [(r, ds')] ∧ ds' ≠ [] ∧ (OKI b → OKI b') := by
   have hlast : b.groups.getLast? = some (r, ds) := by rw [hg]; simp
   have hlang : (if (decode langs r d).lang = "" then d.redetect else (decode langs r d).lang) = (decode langs r d).lang := by
     split
@@ -50,7 +57,7 @@ theorem add_spec (langs : List String) (b : Builder) (pre : List (RepoMeta × Li
   simp only at hl1 hl2 hl3
   let d' : Doc := { repo := b.groups.length - 1, name := d.name, content := d.content, mask := d.mask, sub := d.sub,
                     lang := code, cat := d.cat, secs := d.secs, syms := d.syms, redetect := d.redetect }
-  refine ⟨{ groups := pre ++ [(r, ds ++ [d'])], langs := langs' }, ds ++ [d'], ?_, ?_, ?_, rfl, by simp⟩
+  refine ⟨{ groups := pre ++ [(r, ds ++ [d'])], langs := langs' }, ds ++ [d'], ?_, ?_, ?_, rfl, by simp, ?_⟩
   · unfold Builder.add
     rw [hlast]
     simp only [hlang, hsecs, hsyms, hsub, hmask, hlc, Bool.not_true, Bool.false_eq_true, if_false]
@@ -121,5 +128,27 @@ theorem add_spec (langs : List String) (b : Builder) (pre : List (RepoMeta × Li
       rw [hold (r, ds) (by rw [hg]; simp) d2 hd2]
     rw [h1, h2]
     simp
+  · -- the builder's documents stay copyable
+    intro hoki g hgm d2 hd2
+    simp only at hgm ⊢
+    have hnewok : DocOk langs' r d' :=
+      { br_nodup := hok.br_nodup, br_len := hok.br_len, mask_lt := hok.mask_lt, sub_nodup := hok.sub_nodup,
+        sub_lt := hok.sub_lt, secs := hok.secs, syms := hok.syms,
+        lang_idem := by
+          intro he
+          have : langs.getD d.lang "" = "" := by
+            have h' : (decode langs r d).lang = langs.getD d.lang "" := rfl
+            rw [← h', ← hl1]; exact he
+          exact hok.lang_idem this }
+    rcases List.mem_append.1 hgm with h | h
+    · rw [hl3]
+      have hm : g ∈ b.groups := by rw [hg]; exact List.mem_append_left _ h
+      exact DocOk_langs_ext _ _ _ _ (hbi.lang g hm d2 hd2) (hoki g hm d2 hd2)
+    · simp only [List.mem_singleton] at h; subst h
+      rcases List.mem_append.1 hd2 with h2 | h2
+      · rw [hl3]
+        have hm : (r, ds) ∈ b.groups := by rw [hg]; simp
+        exact DocOk_langs_ext _ _ _ _ (hbi.lang _ hm d2 h2) (hoki _ hm d2 h2)
+      · simp only [List.mem_singleton] at h2; subst h2; exact hnewok
 
 end ZoektModel.C16
